@@ -210,6 +210,30 @@ def _script_event(e):
     return out
 
 
+def _script_condition(c):
+    """Single-threaded observations of a Condition: what is returned / raised without a second party."""
+    out = []
+    try:
+        c.wait(0.01)
+    except RuntimeError as e:
+        out.append(type(e).__name__)
+    try:
+        c.notify()
+    except RuntimeError as e:
+        out.append(type(e).__name__)
+    with c:
+        out.append(c.notify())
+        out.append(c.notify_all())
+        out.append(c.wait(0.01))
+        out.append(c.wait_for(lambda: True))
+        out.append(c.wait_for(lambda: False, 0.01))
+        with c:     # the default lock is recursive
+            out.append(c.wait(0.01))
+    out.append(c.acquire())
+    out.append(c.release())
+    return out
+
+
 def _script_value(v):
     out = [v.value]
     v.value = 5
@@ -259,6 +283,7 @@ def cmd_conformance(argv):
     results["Event"] = [_script_event(real_ctx.Event())]
     import threading
     results["threading.Event"] = [_script_event(threading.Event())]
+    results["threading.Condition"] = [_script_condition(threading.Condition())]
     results["Value"] = [_script_value(real_ctx.Value("i", 0))]
     rq = real_ctx.Queue()
     results["Queue"] = [_script_pipe_queue(rq, lambda: time.sleep(0.2))]
@@ -282,6 +307,7 @@ def cmd_conformance(argv):
         box["Event"] = _script_event(ctx.Event())
         from .prims import ThreadingShim
         box["threading.Event"] = _script_event(ThreadingShim(k).Event())
+        box["threading.Condition"] = _script_condition(ThreadingShim(k).Condition())
         box["Value"] = _script_value(ctx.Value("i", 0))
         pq = ctx.Queue()
 
